@@ -7,6 +7,7 @@ import CatiiProofs.FromArray
 import CatiiProofs.FromArrayWf
 import CatiiProofs.ColumnStack
 import CatiiProofs.Reindexed
+import CatiiProofs.Sliced
 /-!
 # C07 — every operation preserves index well-formedness
 
@@ -16,7 +17,7 @@ coordinates within the shape, no row under two values of the same column.  `wf` 
 version the harness evaluates on every real result; `wf_sound` ties the two.
 
 **Partial**: preservation is proved for `shift_common` (any value, and the library-chosen one),
-`copy`, `append` (any operands with the same higher shape whose rows fit 32 bits), `filtered` (any mask), `update` (any consistent cell assignments), `column_stack`, `reindexed` and construction
+`copy`, `append` (any operands with the same higher shape whose rows fit 32 bits), `filtered` (any mask), `update` (any consistent cell assignments), `column_stack`, `reindexed`, `sliced` and construction
 from arrays (`from_array_wellformed`); for the other operations it is checked after every step of every generated history
 on the real code (`validate(True)` plus the range / arity / non-emptiness conditions) and on the
 model (`wf`), but is not yet a theorem.
@@ -65,6 +66,12 @@ value, default), with or without the final re-normalisation -/
 theorem reindexed_preserves_partial (i : IIndex) (h : WF i) (hnd : i.ndim ≤ 2) (mapping : Option (List (Int × Int)))
     (shift : Bool) (r : IIndex) (hr : reindexed i mapping shift false = .ok r) : WF r :=
   (reindexed_refines i h hnd mapping shift r hr).1
+
+/-- `sliced(*orders)` returns a well-formed index (any number of axes) -/
+theorem sliced_preserves_partial (i : IIndex) (orders : List Order) (ok : SliceOK i orders) :
+    ∃ r, sliced i orders = .ok r ∧ WF r := by
+  obtain ⟨r, h1, h2, _⟩ := sliced_refines ok
+  exact ⟨r, h1, h2⟩
 
 /-- consequence named by the property: after re-encoding nothing is listed under the common value
 and no entry is empty, so the set of listed values contains no category that occurs nowhere -/
